@@ -632,6 +632,7 @@ int main(int argc, char *argv[]) {
 
     if (!output_code_filename.open_write(output_code)) {
       nout << "Unable to write to " << output_code_filename << "\n";
+      exit(1);
     } else {
       output_code << output_buffer_str;
 
@@ -652,6 +653,14 @@ int main(int argc, char *argv[]) {
 
       if (build_python_native_wrappers) {
         write_python_table_native(output_code);
+      }
+
+      // Make sure that everything actually made it to the file.
+      output_code.close();
+      if (output_code.fail()) {
+        nout << "Error writing to " << output_code_filename << "\n";
+        output_code_filename.unlink();
+        exit(1);
       }
     }
   }
